@@ -265,11 +265,15 @@ Definition msec_id (m : msec) : string := match m with MData id => id | MTr id _
 (* strconv.Itoa(len(mediaSections)) *)
 Definition data_mid (secs : list msec) : string := itoa (Z.of_nat (List.length secs)).
 
-(* generateUnmatchedSDP *)
-Definition gen_unmatched (s : st) : list tr * list msec :=
+(* the data section a local offer appends: mid = Itoa(number of sections so far) *)
+Definition with_data (add : bool) (secs : list msec) : list msec :=
+  if add then secs ++ [MData (data_mid secs)] else secs.
+
+(* generateUnmatchedSDP: the sections before the data section, and whether a
+   data section is appended *)
+Definition gen_unmatched (s : st) : list tr * (list msec * bool) :=
   let l := map set_neg (trs s) in
-  let secs := map (fun t => msec_of (t_mid t) t) l in
-  (l, if dc s then secs ++ [MData (data_mid secs)] else secs).
+  (l, (map (fun t => msec_of (t_mid t) t) l, dc s)).
 
 (* generateMatchedSDP, loop over the remote media descriptions; the section
    list is accumulated in order *)
@@ -329,20 +333,20 @@ Definition bundle_match (g : option string) (id : string) : bool :=
   | Some v => str_in id (split_sp v)
   end.
 
+(* result: sections before a locally added data section, whether one is added,
+   and the bundle group to match (answers only) *)
 Definition gen_matched (s : st) (d : rdesc) (include_unmatched : bool)
-  : list tr * result (list msec * option string) :=
+  : list tr * result (list msec * bool * option string) :=
   match match_loop (r_secs d) (fresh_local (trs s)) [] false with
   | (l, Err e) => (strip l, Err e)
   | (l, Panic) => (strip l, Panic)
   | (l, Ok (acc, app)) =>
       if include_unmatched then
         let '(l', um) := take_unmatched l in
-        let secs := acc ++ um in
-        let secs := if dc s && negb app then secs ++ [MData (data_mid secs)] else secs in
-        (strip l', Ok (secs, None))
+        (strip l', Ok (acc ++ um, dc s && negb app, None))
       else
         let gv := match r_group d with Some v => v | None => EmptyString end in
-        (strip l, Ok (acc, Some (trim_left_bundle gv)))
+        (strip l, Ok (acc, false, Some (trim_left_bundle gv)))
   end.
 
 (* populateSDP / addTransceiverSDP / addDataMediaSection *)
@@ -426,13 +430,20 @@ Definition offer_alloc (s : st) : st :=
   let '(g2, l) := alloc_mids g1 (trs s) in
   set_gmid_trs s g2 l.
 
-(* the media sections of an offer from an allocated state *)
-Definition offer_sections (s1 : st) : list tr * result (list msec * option string) :=
+(* the remote description CreateOffer generates against: none when there is no
+   current one (generateUnmatchedSDP); otherwise generateMatchedSDP reads the
+   pending one when there is one *)
+Definition offer_remote (s1 : st) : option rdesc :=
   match cur_remote s1 with
-  | None => let '(l, secs) := gen_unmatched s1 in (l, Ok (secs, None))
-  | Some cur =>
-      (* generateMatchedSDP reads the pending remote description when there is one *)
-      gen_matched s1 (match pend_remote s1 with Some p => p | None => cur end) true
+  | None => None
+  | Some cur => Some (match pend_remote s1 with Some p => p | None => cur end)
+  end.
+
+(* the media sections of an offer from an allocated state *)
+Definition offer_sections (s1 : st) : list tr * result (list msec * bool * option string) :=
+  match offer_remote s1 with
+  | None => let '(l, (secs, add)) := gen_unmatched s1 in (l, Ok (secs, add, None))
+  | Some d => gen_matched s1 d true
   end.
 
 (* CreateOffer.  The retry loop: when hasLocalDescriptionChanged holds, the
@@ -443,9 +454,9 @@ Definition create_offer (s : st) : st * result ldesc :=
   match offer_sections s1 with
   | (l, Err e) => (set_trs s1 l, Err e)
   | (l, Panic) => (set_trs s1 l, Panic)
-  | (l, Ok (secs, g)) =>
+  | (l, Ok (base, add, g)) =>
       let s2 := set_trs s1 l in
-      match populate (has_codecs s2) g secs with
+      match populate (has_codecs s2) g (with_data add base) with
       | Err e => (s2, Err e)
       | Panic => (s2, Panic)
       | Ok p =>
@@ -465,7 +476,7 @@ Definition create_answer (s : st) : st * result ldesc :=
           match gen_matched s d false with
           | (l, Err e) => (set_trs s l, Err e)
           | (l, Panic) => (set_trs s l, Panic)
-          | (l, Ok (secs, g)) =>
+          | (l, Ok (secs, _, g)) =>
               let s2 := set_trs s l in
               match populate (has_codecs s2) g secs with
               | Err e => (s2, Err e)
